@@ -1,0 +1,57 @@
+//go:build verif
+
+package rib
+
+// Contracts for deductive verification (read by /verif/govc). This file holds
+// comments only: it cannot change behaviour with the build tag on or off.
+
+//@ guarded_by RIB.nrMu: niRIB
+//@ guarded_by RIB.pendMu: pendingEntries
+
+//@ pred holdersNonNil(r *RIB) = forall k in dom(r.niRIB) :: r.niRIB[k] != nil
+
+//@ unit RIB.NetworkInstanceRIB
+//@ requires r != nil
+//@ ensures result1 <==> s in dom(r.niRIB)
+//@ ensures result0 == r.niRIB[s]
+//@ assigns nothing
+//@ props C04 C08 C11:lock C12:safety
+
+//@ unit RIBHolder.IsValid
+//@ requires r != nil
+//@ ensures result0 <==> r.name != "" && r.r != nil && r.r.Afts != nil
+//@ assigns nothing
+//@ props C04 C11:lock C12:safety
+
+// resultsWF: every element of an OpResult list is non-nil.
+//@ pred resultsWF(rs []*OpResult) = forall i in 0..len(rs) :: rs[i] != nil
+
+//@ unit RIB.AddEntry
+//@ requires r != nil && op != nil
+//@ ensures[fatal] result2 != nil ==> len(result0) == 0 && len(result1) == 0
+//@ ensures[wf] resultsWF(result0) && resultsWF(result1)
+//@ assigns ribState
+//@ props C01 C02 C06 C12:safety
+
+//@ unit RIB.DeleteEntry
+//@ requires r != nil
+//@ ensures[wf] resultsWF(result0) && resultsWF(result1)
+//@ ensures[one-verdict] result2 == nil ==> len(result0) + len(result1) == 1
+//@ ensures[own-id] result2 == nil ==> forall i in 0..len(result0) :: result0[i].ID == op.GetId()
+//@ ensures[own-id-fail] result2 == nil ==> forall i in 0..len(result1) :: result1[i].ID == op.GetId()
+//@ assigns ribState
+//@ props C01 C03 C06 C12:safety
+
+//@ unit RIB.KnownNetworkInstances
+//@ requires r != nil
+//@ ensures[sound] forall i in 0..len(result0) :: result0[i] in dom(r.niRIB)
+//@ ensures[complete] forall k in dom(r.niRIB) :: exists i in 0..len(result0) :: result0[i] == k
+//@ assigns nothing
+//@ props C08 C07 C11:lock
+
+//@ unit RIB.Flush
+//@ requires r != nil
+//@ requires[known] forall i in 0..len(networkInstances) :: networkInstances[i] in dom(r.niRIB)
+//@ ensures[ok] result0 == nil
+//@ assigns ribState
+//@ props C08 C03 C12:safety
